@@ -568,7 +568,7 @@ def judge_exception(R, kind, detail, exc, s, wh, in_module):
         return 'ok', 'attribute-error'
     if kind == 'ValueError' and (wh[1] in ('__rmatmul__', '_eval_ast', '_sum_expr', '_norm2_expr', '_J_expr') or not in_module):
         return 'ok', 'documented-refusal/ValueError'
-    if kind == 'TypeError' and wh[1] == '_eval_ast' and re.search(r'(unexpected keyword argument|positional argument)', msg):
+    if kind == 'TypeError' and wh[1] == '_eval_ast' and re.search(r'(unexpected keyword argument|positional argument|multiple values for (keyword )?argument|keyword-only argument)', msg):
         return 'ok', 'function-signature-refusal/TypeError'
     if not in_module:
         return 'ok', 'outside-module/' + kind
